@@ -42,7 +42,7 @@ Step(s, e, i) ==
     [] e.ev = "pool" -> OnPool(s0, e)
     [] e.ev = "ret" -> OnRet(s0, e)
     [] e.ev = "chk" -> RepIf(e.h \in DOMAIN s.dg /\ s.dg[e.h] # e.dg, s0, V("returned-value-changed-later", s0, [h |-> e.h, when |-> e.when]))
-    [] e.ev = "payload" -> RepIf(e.before # e.after, s0, V("muxer-modified-caller-payload", s0, [x |-> 0]))
+    [] e.ev = "payload" -> RepIf(e.before # e.after, s0, V("muxer-modified-caller-buffer", s0, [api |-> e.api]))
     [] e.ev = "solo" -> [s0 EXCEPT !.solo = SetFn(s.solo, e.inst, e.seq)]
     [] e.ev = "conc" -> RepIf(e.inst \notin DOMAIN s.solo \/ s.solo[e.inst] # e.seq, s0, V("concurrent-result-differs-from-solo", s0, [inst |-> e.inst, n |-> Len(e.seq)]))
     [] e.ev = "concdone" -> RepIf(s.held # {}, s0, V("pool-item-held-after-return", s0, [rkind |-> "concurrent", n |-> Cardinality(s.held)]))
